@@ -509,3 +509,65 @@ func TestC14(t *testing.T) {
 		})
 	})
 }
+
+// TestC14Mixed: RRsets that hold alias-mode and service-mode records side by side, in
+// any order (zones should not, RFC 9460 2.4.2, but resolvers meet them). Which
+// reading an implementation takes is not judged here; what is: the reading does not
+// depend on whether the answer came from upstream or from the resolver's cache.
+func TestC14Mixed(t *testing.T) {
+	rec := ev.Get("C14")
+	rapid.Check(t, func(t *rapid.T) {
+		z := dnsfx.NewZone()
+		z.Version = 1
+		g := &zoneGen{t: t, z: z, ttl: func() uint32 { return 300 }}
+		host := "mixed.example"
+		g.addrs(host, "hosta", 1)
+		g.addrs("t1.example", "t1", 1)
+		g.addrs("t2.example", "t2", 1)
+		g.addrs("alias-target.example", "ata", 1)
+		g.service(host, "svc")
+		g.service("alias-target.example", "asvc")
+		alias := dnsfx.ZRec{TTL: 300, HTTPS: dns.HTTPS{Priority: 0, Target: "alias-target.example"}}
+		pos := rapid.IntRange(0, len(z.HTTPS[host])).Draw(t, "alias_pos")
+		l := append([]dnsfx.ZRec{}, z.HTTPS[host][:pos]...)
+		l = append(l, alias)
+		z.HTTPS[host] = append(l, z.HTTPS[host][pos:]...)
+		input := rapid.SampledFrom([]string{host, host + ":443", "https://" + host + "/x"}).Draw(t, "input")
+		rp := map[string]any{"zone": z.Describe(), "input": input, "alias_pos": pos}
+		outcome := func(res ech.ResolveResult, e error) string {
+			if isPanic(e) {
+				ev.Violation(t, "C14", rp, "Resolve panicked: %v", e)
+			}
+			if e != nil {
+				return "error"
+			}
+			return fmt.Sprintf("%+v", res)
+		}
+		var outs []string
+		withZoneServer(z, nil, func(url string, srv *dnsfx.Server) {
+			ctx, cancel := context.WithTimeout(context.Background(), 30*time.Second)
+			defer cancel()
+			fresh, err := ech.NewResolver(url)
+			if err != nil {
+				t.Fatalf("harness: %v", err)
+			}
+			fresh.SetCacheSize(0)
+			var res ech.ResolveResult
+			e := guard(func() error { var e error; res, e = fresh.Resolve(ctx, input); return e })
+			outs = append(outs, outcome(res, e))
+			caching, _ := ech.NewResolver(url)
+			for i := 0; i < 3; i++ {
+				e := guard(func() error { var e error; res, e = caching.Resolve(ctx, input); return e })
+				outs = append(outs, outcome(res, e))
+			}
+		})
+		for i := 1; i < len(outs); i++ {
+			if outs[i] != outs[0] {
+				ev.Violation(t, "C14", rp, "the same unchanged zone resolves differently: call %d on a caching resolver gives %s, a resolver without cache gives %s", i, outs[i], outs[0])
+			}
+		}
+		rec.Case(fmt.Sprintf("mixed|%v|%d|%s", z.Describe(), pos, input), true, []string{"mixed_alias_and_service_rrset"}, func() any {
+			return map[string]any{"kind": "mixed_rrset", "alias_pos": pos, "input": input, "outcome": outs[0][:min(len(outs[0]), 200)]}
+		})
+	})
+}
